@@ -34,7 +34,7 @@ check('C03', level='model_checking', steps=[dict(src='drv/local.c', variant='pla
       mc_keys=dict(states='ref_states', transitions='ref_transitions'))
 
 check('C04', level='exploration', steps=[dict(src='drv/c04.c', variant='plain', name='domain')],
-      rule=("every string is generated once per layer (L1 odometer over 8 classes; L2 base x position x byte; L3 length generators incl. the label-count sweep n = 1..140 equal labels of 1..63 characters, each also behind a 64-octet local part); "
+      rule=("every string is generated once per layer (L1 odometer over 8 classes; L2 base x position x byte; L3 length generators incl. the label-count sweep n = 1..140 equal labels of 1..63 characters, each also behind a 64-octet local part, and all-numeric names of 1..12 labels); "
             "non-trivial = L1 strings of >= 2 bytes containing a dot or hyphen (the structure rules are exercised); counted by the driver"),
       deadline=dict(quick=240, thorough=3000))
 
@@ -44,7 +44,7 @@ check('C05', level='exploration', steps=[dict(src='drv/c05.c', variant='plain', 
                                            # those builds (stub IDN API of drv/shim.c, every malloc'ed block pre-filled with 0xA5 so that a forgotten flag reads as set)
                                            dict(src='drv/c05.c', variant='idnkit', name='literal-idnkit', extra_src=['drv/shim.c'], ldflags=[SHIMWRAP], args=['--structured-only']),
                                            dict(src='drv/c05.c', variant='idn', name='literal-idn', extra_src=['drv/shim.c'], ldflags=[SHIMWRAP], args=['--structured-only'])],
-      rule=("each generator emits every case once (token odometers 'raw' and 'in', structured v4/v6 products with 27 group spellings, byte-position sweeps), every literal behind 3 local-part shapes, the part validators also with 14 tails after the end pointer; the structured generators again on the idn and idnkit builds with every malloc'ed block pre-filled; "
+      rule=("each generator emits every case once (token odometers 'raw' and 'in', structured v4/v6 products with 27 group spellings and one or two extra dots at every position of 256 octet tuples, byte-position sweeps), every literal behind 3 local-part shapes, the part validators also with 14 tails after the end pointer; the structured generators again on the idn and idnkit builds with every malloc'ed block pre-filled; "
             "non-trivial = odometer strings that start with '[' (raw) or contain ':' or '.' (bracket content) and have >= 3 bytes; counted by the driver"),
       deadline=dict(quick=240, thorough=3000))
 
@@ -118,7 +118,7 @@ check('C13', level='model_checking', steps=[dict(builder=build_hist, name='hist-
       mc_keys=dict(states='states', transitions='transitions'), traces_key='histories_replayed')
 
 check('C19', level='fault_enumeration', steps=[dict(builder=build_hist, name='hist-c19', prop='C19', backends=['idn2'])],
-      rule=RULE_HIST + "; fault alphabet = 31 libidn2 return codes x {no output buffer, buffer allocated}, injected at the conversion call through -Wl,--wrap=idn2_to_ascii_8z",
+      rule=RULE_HIST + "; fault alphabet = 31 libidn2 return codes x {no output buffer, buffer allocated}, injected at the conversion call through -Wl,--wrap=idn2_to_ascii_8z; plus the fault corpus sweep: every address of seven corpora x tld on/off x three environment answers with the allocator ledger checked after the call and after eav_free",
       deadline=dict(quick=240, thorough=2400))
 check('C18', level='model_checking', steps=[dict(builder=build_hist, name='hist-c18-lockstep', prop='C18', backends=['idn2', 'idn', 'idnkit']),
                                              dict(builder=build_hist, name='hist-c18-ctxfail', prop='C18', backends=['idnkit'], xargs=['--ctxfail']),
@@ -196,7 +196,7 @@ check('C06', level='exploration', steps=[
 import c20cli
 check('C20', level='exploration', steps=[dict(kind='py', name='cli', fn=c20cli.run, replay=c20cli.replay)],
       rule=("files = all sequences of 0..k lines (k=2 quick, 3 thorough) over the line-shape menu x {LF, CRLF} per line x final newline present/absent, plus long-line files "
-            "(1023..8192 bytes, ASCII and multi-byte, one straddling byte 2048; every line length within 6 of each power of two 128..4096; a 2-/3-/4-byte character at every offset 0..w+1 before each multiple of 256..8192) and NUL-containing files; files are de-duplicated, so every file is distinct; non-trivial = files with at least one terminated line and > 2 bytes"),
+            "(1023..8192 bytes, ASCII and multi-byte, one straddling byte 2048; every line length within 6 of each power of two 128..4096; a 2-/3-/4-byte character at every offset 0..w+1 before each multiple of 256..8192; lines of 64 KiB and 1 MiB; files of thousands of lines) and NUL-containing files; files are de-duplicated, so every file is distinct; non-trivial = files with at least one terminated line and > 2 bytes"),
       deadline=dict(quick=300, thorough=2400))
 
 # ---------------------------------------------------------------------------
